@@ -437,7 +437,7 @@ impl Check for C19 {
         "C19"
     }
     fn families(&self, _tier: Tier) -> Vec<&'static str> {
-        vec!["schedule", "legal-faults", "cli", "legal-faults", "hard-faults", "schedule", "legal-faults", "hard-faults", "cli-hard"]
+        vec!["schedule", "legal-faults", "cli", "legal-faults", "hard-faults", "schedule", "rotation", "hard-faults", "cli-hard", "legal-faults"]
     }
     fn default_runs(&self, tier: Tier) -> u64 {
         match tier {
@@ -478,6 +478,26 @@ impl Check for C19 {
                 // the query file is a FIFO / process substitution: its size reads as 0, it cannot be seeked
                 c.simcfg.pipe_like_paths = vec!["/sim/queries".into()];
             }
+        }
+        if family == "rotation" {
+            // histories around the file's name (round 6): between two run() calls the response file is rotated
+            // away (renamed, nothing created in its place), rewritten in place (same content, another file under
+            // the name) or deleted. "Repeated runs appending to the same file": the file of that name
+            let all: Vec<Value> = c.batches.iter().flatten().cloned().collect();
+            let k = r.range(2, 3) as usize;
+            let mut parts: Vec<Vec<Value>> = vec![vec![]; k];
+            for (i, q) in all.into_iter().enumerate() {
+                parts[i % k].push(q);
+            }
+            c.batches = parts.into_iter().filter(|b| !b.is_empty()).collect();
+            c.world.out2 = None;
+            c.world.per_run_sinks = None;
+            if let Some(o) = &mut c.world.out {
+                o.preexisting = false;
+            }
+            let ops: Vec<u64> = (1..c.batches.len()).map(|_| *r.pick(&[1u64, 2, 3, 2, 1, 0])).collect();
+            c.params = json!({"rotate": ops});
+            c.simcfg.faults = 0;
         }
         match family {
             "cli" => {
@@ -531,8 +551,47 @@ impl Check for C19 {
     }
     fn run(&self, case: &Case, fatal_fd: i32) -> ChildResult {
         let probe = StageProbe { batches: case.batches.clone(), parallelism: case.run_parallelism.unwrap_or(case.world.parallelism), out: Value::Null };
-        let obs = execute(case, ExecOpts { reference: true, trace: false, log_clock: false, explore_build: false }, Box::new(probe), fatal_fd);
-        let (violations, mut reach, nontrivial) = judge(case, &obs);
+        let mut obs = execute(case, ExecOpts { reference: true, trace: false, log_clock: false, explore_build: false }, Box::new(probe), fatal_fd);
+        let mut rotation_violations: Vec<Violation> = vec![];
+        if case.family == "rotation" {
+            // nothing may be written to a file after it lost the name; the records of all runs are then judged as
+            // one whole: what each rotated / deleted file held when it lost the name, then the file of that name
+            if let Some(d) = &obs.extra_rotation_damage {
+                rotation_violations.push(Violation { class: "written-to-replaced-file".into(), detail: d.clone() });
+            }
+            let mut whole: Vec<u8> = vec![];
+            let mut header: Option<Vec<u8>> = None;
+            let csv = matches!(case.world.out.as_ref().map(|o| &o.format), Some(crate::world::OutFormat::Csv { .. }));
+            let mut parts: Vec<Vec<u8>> = vec![];
+            for (then, now) in obs.rotated.iter() {
+                if then != now {
+                    rotation_violations.push(Violation { class: "written-to-rotated-file".into(), detail: format!("{} bytes were written to a response file after it had been rotated away / deleted (the run() call named the file, not the handle)", now.len().saturating_sub(then.len())) });
+                }
+                parts.push(then.clone());
+            }
+            parts.push(obs.out_file.clone().unwrap_or_default());
+            for (i, part) in parts.iter().enumerate() {
+                let mut body: &[u8] = part;
+                if csv && !part.is_empty() {
+                    let eol = part.iter().position(|b| *b == b'\n').map_or(part.len(), |p| p + 1);
+                    if header.is_none() {
+                        header = Some(part[..eol].to_vec());
+                    } else if header.as_deref() == Some(&part[..eol]) {
+                        body = &part[eol..]; // a new file starts with the header again: one header per file
+                    } else {
+                        rotation_violations.push(Violation { class: "csv-no-header-after-rotation".into(), detail: format!("file {} of the history does not start with the header", i) });
+                    }
+                }
+                whole.extend_from_slice(body);
+            }
+            obs.out_file = Some(whole);
+        }
+        let (mut violations, mut reach, nontrivial) = judge(case, &obs);
+        violations.extend(rotation_violations);
+        if case.family == "rotation" {
+            reach.insert("rotations".into(), obs.rotated.len() as u64);
+            reach.insert("rotation_histories".into(), 1);
+        }
         reach.insert("preemptions".into(), obs.stats.preemptions);
         world_reach(&case.world, &mut reach);
         reach.insert("sim_writes".into(), obs.stats.sim_writes);
